@@ -231,6 +231,11 @@ def module_source(cases, glob_src):
             lam = "lambda self: %s" % c["expr"]
             if layout in ("neighbours", "nested"):
                 layout = "oneline"
+        elif c.get("named"):
+            # the condition is a named function: the message shows its name, the description and the arguments
+            lines.append("    def cond_%d(%s):" % (i, ", ".join(params)))
+            lines.append("        return (%s)" % c["expr"])
+            lam = "cond_%d" % i
         else:
             lam = "lambda %s: %s" % (", ".join(params), c["expr"])
         extra = ", a_repr=A_REPRS[%d]" % i if c.get("a_repr") else ""
@@ -577,7 +582,7 @@ def run_batch(cases, glob_src="GL = 7\ny = 1000\ncl = 77", closure_value=5, norm
             first = msgs[0]
             if first[0] == "ViolationError":
                 ob["out"] = ["ViolationError"]
-                loc, header, entries, raw = parse_message(first[1], c["expr"])
+                loc, header, entries, raw = parse_message(first[1], ("cond_%d" % i) if c.get("named") else c["expr"])
                 ob["location"] = loc
                 ob["header"] = header
                 ob["entries"] = entries
